@@ -591,6 +591,7 @@ def _div_terms(a, b):
             c.assume_raw(rest == zb * q + r)
             c.assume_raw(z3.And(r >= 0, r < zb))
             c.nonneg_ids.add(r.get_id())
+            c.__dict__.setdefault('qr_defs', []).append((q, r, rest, zb))
             res = (z3.simplify(Q + q), r)
             c.divcache[key] = res
             return res
@@ -599,6 +600,7 @@ def _div_terms(a, b):
         c.assume_raw(za == zb * q + r)
         c.assume_raw(z3.And(r >= 0, r < zb))
         c.nonneg_ids.add(r.get_id())
+        c.__dict__.setdefault('qr_defs', []).append((q, r, za, zb))
         c.divcache[key] = (q, r)
         return q, r
     q = c.fresh_int('q')
